@@ -354,48 +354,59 @@ theorem no_stop_no_difference (i : Input) (m : ListErr) (n : Nat) (log : Log)
     · cases href : i.ref <;> simp [hmax, hs, h, tail, listRet]
 
 /-- non-vacuity: a concrete run that succeeds on the second page within the limit -/
-example : run { max := 3, pages := [[.bad], [.good, .bad]], ref := .tag, skip := false, listErr := .forward, refVariant := "", flavors := [], sameAs := [], wrap := 0, verifier := "skipper", policy := 0 } =
+example : run { max := 3, pages := [[.bad], [.good, .bad]], ref := .tag, skip := false, listErr := .forward, refVariant := "", flavors := [], sameAs := [], wrap := 0, verifier := "skipper", policy := 0, userMetadata := 0, pluginConfig := 0 } =
     { success := some 1, skipped := false, resolved := true, listed := true,
       fetched := [0, 1], verified := [0, 1], descOk := true } := by decide
 
-example : Holds { max := 3, pages := [[.bad], [.good, .bad]], ref := .tag, skip := false, listErr := .forward, refVariant := "", flavors := [], sameAs := [], wrap := 0, verifier := "skipper", policy := 0 }
+example : Holds { max := 3, pages := [[.bad], [.good, .bad]], ref := .tag, skip := false, listErr := .forward, refVariant := "", flavors := [], sameAs := [], wrap := 0, verifier := "skipper", policy := 0, userMetadata := 0, pluginConfig := 0 }
     { success := some 0, skipped := false, resolved := true, listed := true,
       fetched := [0], verified := [0], descOk := true } = false := by decide
 
 /-- the same listing behind a repository that swallows the stop request succeeds alike; behind one that reports
 the listing as failed it is an error, after the same two fetches -/
-example : run { max := 3, pages := [[.bad], [.good, .bad]], ref := .tag, skip := false, listErr := .swallow, refVariant := "", flavors := [], sameAs := [], wrap := 0, verifier := "stub", policy := 0 } =
+example : run { max := 3, pages := [[.bad], [.good, .bad]], ref := .tag, skip := false, listErr := .swallow, refVariant := "", flavors := [], sameAs := [], wrap := 0, verifier := "stub", policy := 0, userMetadata := 0, pluginConfig := 0 } =
     { success := some 1, skipped := false, resolved := true, listed := true,
       fetched := [0, 1], verified := [0, 1], descOk := true } := by decide
 
-example : run { max := 3, pages := [[.bad], [.good, .bad]], ref := .tag, skip := false, listErr := .replace, refVariant := "", flavors := [], sameAs := [], wrap := 1, verifier := "stub", policy := 0 } =
+example : run { max := 3, pages := [[.bad], [.good, .bad]], ref := .tag, skip := false, listErr := .replace, refVariant := "", flavors := [], sameAs := [], wrap := 1, verifier := "stub", policy := 0, userMetadata := 0, pluginConfig := 0 } =
     { success := none, skipped := false, resolved := true, listed := true,
       fetched := [0, 1], verified := [0, 1], descOk := false } := by decide
 
 /-- a failure reported although a signature verified (what a repository adding context to the "done" sentinel
 gets from an identity comparison) is rejected by `Holds` -/
-example : Holds { max := 3, pages := [[.good]], ref := .tag, skip := false, listErr := .forward, refVariant := "", flavors := [], sameAs := [], wrap := 1, verifier := "stub", policy := 0 }
+example : Holds { max := 3, pages := [[.good]], ref := .tag, skip := false, listErr := .forward, refVariant := "", flavors := [], sameAs := [], wrap := 1, verifier := "stub", policy := 0, userMetadata := 0, pluginConfig := 0 }
     { success := none, skipped := false, resolved := true, listed := true,
       fetched := [0], verified := [0], descOk := false } = false := by decide
 
 /-- a skip-level statement under which the repository was accessed all the same (what a verifier that no
 longer satisfies the optional skip interface gets) is rejected by `Holds` -/
-example : Holds { max := 3, pages := [], ref := .digestMatch, skip := true, listErr := .forward, refVariant := "", flavors := [], sameAs := [], wrap := 0, verifier := "realNew", policy := 1 }
+example : Holds { max := 3, pages := [], ref := .digestMatch, skip := true, listErr := .forward, refVariant := "", flavors := [], sameAs := [], wrap := 0, verifier := "realNew", policy := 1, userMetadata := 2, pluginConfig := 2 }
     { success := none, skipped := false, resolved := true, listed := true,
       fetched := [], verified := [], descOk := false } = false := by decide
 
 /-- how the reference is spelled, which error values failing attempts return, which context a forwarding
-repository adds to the callback's error, which Verifier implementation decides and how its policy document is
-laid out are not inputs of the decision: two inputs that differ only there are observed identically -/
+repository adds to the callback's error, which Verifier implementation decides, how its policy document is
+laid out and which further options the caller passes (required user metadata, plugin configuration) are not
+inputs of the decision - in particular a skip level is honoured whatever those options are: two inputs that differ only there are observed identically -/
 theorem concretisation_irrelevant (i : Input) (v : String) (f : List Nat) (sa : List Int) (w : Nat)
-    (vk : String) (pol : Nat) :
-    run { i with refVariant := v, flavors := f, sameAs := sa, wrap := w, verifier := vk, policy := pol } = run i := by
+    (vk : String) (pol um pc : Nat) :
+    run { i with refVariant := v, flavors := f, sameAs := sa, wrap := w, verifier := vk, policy := pol,
+                 userMetadata := um, pluginConfig := pc } = run i := by
   simp [run, errObs]
+
+/-- **C10, skip is unconditional**: under a skip level and a positive limit nothing is touched, whatever user
+metadata / plugin configuration the caller asks for, whatever the reference, the listing and the repository -/
+theorem skip_whatever_the_options (i : Input) (um pc : Nat) (hs : i.skip = true) (hm : 0 < i.max) :
+    run { i with userMetadata := um, pluginConfig := pc } =
+      { success := none, skipped := true, resolved := false, listed := false, fetched := [], verified := [], descOk := false } := by
+  have : ¬ i.max ≤ 0 := by omega
+  simp [run, this, hs]
 
 /-- ... and the property asks the same of them -/
 theorem concretisation_irrelevant_spec (i : Input) (o : Obs) (v : String) (f : List Nat) (sa : List Int) (w : Nat)
-    (vk : String) (pol : Nat) :
-    Holds { i with refVariant := v, flavors := f, sameAs := sa, wrap := w, verifier := vk, policy := pol } o = Holds i o := by
+    (vk : String) (pol um pc : Nat) :
+    Holds { i with refVariant := v, flavors := f, sameAs := sa, wrap := w, verifier := vk, policy := pol,
+                   userMetadata := um, pluginConfig := pc } o = Holds i o := by
   rfl
 
 /-! ### tie to the translated source -/
